@@ -273,7 +273,7 @@ void EXutilApproximate (mpq_t var,
 	/* check if the given number is zero, if so, set to zero var and return */
 	if (mpz_cmp_ui (mpq_numref (ori), 0UL) == 0)
 	{
-		return;
+		{ mpq_clear (__lpnum__); return; }
 	}
 	/* if not, then we have some work to do */
 	/* now we initialize the internal numbers */
@@ -388,7 +388,7 @@ void EXutilNicefy (mpq_QSdata * const act_prob,
 	mpq_init (num1);
 	mpq_init (num2);
 	if (sense != 'L' && sense != 'G')
-		return;
+		{ mpq_clear (num1); mpq_clear (num2); return; }
 	/* we internally assume that the inequality is of the form ax >= b */
 	if (sense == 'L')
 	{
